@@ -23,10 +23,10 @@ from vmon.probes import OMBOTT_DIR
 
 RULE = ('arrangements of 2-3 applications (incl. the module default application): alternating calls in every order, nested call (A handler calls B; '
         'depth 2 and 3; B same or other class of outcome: success, 404, crash), Request.copy() inside a handler then mutation of the copy, Response '
-        'use after the nested call, an application constructed while another is serving, each followed by ordinary requests; on one thread, and on two '
+        'use after the nested call, an application constructed while another is serving or (with its own errors_map) between requests, request errors mapped through the configuration (oversized bodies, HTML and JSON clients, per-application 413 handlers) in strictly alternating order, each followed by ordinary requests; on one thread, and on two '
         'threads (one application each) with every schedule of at most one preemption. Non-trivial = another application or request object was '
         'touched between two reads; distinct = distinct (arrangement, parameters, schedule).')
-REQUIRED = ['scenarios_run', 'alternating_held', 'reads_compared', 'responses_compared', 'threaded_runs', 'counterfactual_reruns',
+REQUIRED = ['mapped_error_scenarios', 'scenarios_run', 'alternating_held', 'reads_compared', 'responses_compared', 'threaded_runs', 'counterfactual_reruns',
             'nested_scenarios', 'copy_scenarios', 'construct_scenarios', 'default_app_involved']
 ASSUMPTIONS = ['what a handler is shown is observed by value (path, query, header, cookie, body, url_args; status/headers/cookies of the final response)',
                'the counterfactual repair (accessors rebound to per-instance stores) is harness-side and only used to attribute a deviation to the known mechanism']
@@ -71,6 +71,32 @@ def env_for(name, i, path=None):
     return make_environ('GET', path or f'/r/{m}', qs='m=' + m, headers={'X-M': m, 'Cookie': 'c=' + m, 'Host': m + '.example'})
 
 
+def env_big(name, i, as_json=False):
+    m = f'{name}{i}'
+    h = {'X-M': m, 'Host': m + '.example'}
+    if as_json:
+        h['Accept'] = 'application/json'
+    return make_environ('POST', '/up', qs='m=' + m * (1 + i % 3), body=b'x' * 500, headers=h)
+
+
+def check_big(who, idx, resp, as_json):
+    out = []
+    m = f'{who}{idx}'
+    if resp.escaped is not None:
+        return [('response', who, 'escaped', repr(resp.escaped), None)]
+    if resp.code != 413:
+        return [('response', who, 'status-of-oversized-body', resp.status, 413)]
+    cl = resp.header_all('Content-Length')
+    if cl != [str(len(resp.body))]:
+        out.append(('response', who, 'content-length', cl, len(resp.body)))
+    ct = resp.header('Content-Type', '')
+    if as_json != ct.startswith('application/json'):
+        out.append(('response', who, 'content-type', ct, 'application/json' if as_json else 'text/html'))
+    if not as_json and m.encode() not in resp.body:
+        out.append(('response', who, 'body', resp.body[-120:], f'page showing the own URL with {m}'))
+    return out
+
+
 def expected_show(name, i, path=None):
     m = f'{name}{i}'
     p = path or f'/r/{m}'
@@ -89,9 +115,11 @@ class World:
         D = ombott.default_app()
         for r in list(D.router.routes.values()):
             D.router.remove(r)
+        D.setup({'max_body_size': 64})
+        D.error_handlers.pop(413, None)
         self.apps = {'D': D}
         for n in ('A', 'B'):
-            self.apps[n] = ombott.Ombott()
+            self.apps[n] = ombott.Ombott({'max_body_size': 64})
         for n, app in self.apps.items():
             self.install(n, app)
 
@@ -123,6 +151,16 @@ class World:
             app.response.headers['X-Own-2'] = n
             return f'body-{n}-{x}'
         app.route('/r/<x>', 'GET', handler)
+
+        def upload():
+            return 'len=%d' % len(app.request.body.read())
+        app.route('/up', 'POST', upload)
+
+        def on_413(err):
+            # what this application's response object shows while its own error is rendered
+            W.reads.append((n, 'err413', ('headers', tuple(sorted(dict(app.response.headers).items())), app.response.status_code, app.request.query_string)))
+            return app.default_error_handler(err)
+        app.error(413)(on_413)
 
     def reset(self):
         self.reads = []
@@ -158,6 +196,13 @@ def scenarios():
     for n in names:
         out.append((f'copy:{n}', 'request-copy', [(n, 1, {n: {'act': 'copy'}}), (n, 2, {})]))
         out.append((f'construct:{n}', 'app-constructed-while-serving', [(n, 1, {n: {'act': 'construct'}}), (n, 2, {})]))
+    # request errors mapped through the configuration (shared default error objects): alternating, never nested
+    out.append(('mapped-errors:alternating', 'alternating', [('A', 1, {'req': 'big'}), ('B', 2, {'req': 'big_json'}), ('A', 3, {'req': 'big'}), ('D', 4, {'req': 'big'}),
+                                                               ('B', 5, {'req': 'big'}), ('D', 6, {'req': 'big_json'}), ('A', 7, {})]))
+    out.append(('mapped-errors:after-ordinary-requests', 'alternating', [('A', 1, {}), ('B', 2, {'req': 'big'}), ('A', 3, {'req': 'big_json'}), ('B', 4, {}), ('A', 5, {'req': 'big'})]))
+    # an application with its own errors_map constructed between two requests of another one
+    out.append(('construct-with-own-errors-map-between-requests', 'alternating', [('A', 1, {'req': 'big'}), ('NEWCFG', 0, {}), ('A', 2, {'req': 'big'}), ('D', 3, {'req': 'big'}),
+                                                                                  ('B', 4, {'req': 'big_json'}), ('A', 5, {})]))
     # an application constructed between requests (not while serving) must not matter either
     out.append(('construct-between-requests', 'alternating', [('A', 1, {}), ('NEW', 0, {}), ('A', 2, {}), ('B', 3, {})]))
     return out
@@ -171,6 +216,26 @@ def run_scenario(W, steps):
         if app_name == 'NEW':
             W.made = getattr(W, 'made', [])
             W.made.append(W.ombott.Ombott())
+            continue
+        if app_name == 'NEWCFG':
+            from ombott.request_pkg.errors import BodySizeError
+            W.keep = getattr(W, 'keep', [])
+            W.keep.append(W.ombott.Ombott({'max_body_size': 8, 'errors_map': {BodySizeError: W.ombott.HTTPError(400, 'mapped by another application')}}))
+            continue
+        if script.get('req') in ('big', 'big_json'):
+            W.reset()
+            as_json = script['req'] == 'big_json'
+            r = call_app(W.apps[app_name], env_big(app_name, i, as_json))
+            nobs += 1
+            devs.extend(check_big(app_name, i, r, as_json))
+            m = f'{app_name}{i}'
+            for who, when, val in W.reads:
+                nobs += 1
+                exp = ('headers', (), 413, 'm=' + m * (1 + i % 3))
+                if who != app_name or val != exp:
+                    devs.append(('read', who, when, val, exp))
+            if not any(when == 'err413' for _, when, _ in W.reads) and r.code == 413:
+                devs.append(('read', app_name, 'err413', 'error handler of this application did not run', None))
             continue
         solo = solo_key(W, app_name, i) if False else None
         W.reset()
@@ -256,6 +321,8 @@ def single_unit(ctx, unit):
             ctx.count('construct_scenarios')
         if any(s[0] == 'D' or 'D' in str(s[2]) for s in steps):
             ctx.count('default_app_involved')
+        if any('req' in s[2] for s in steps):
+            ctx.count('mapped_error_scenarios')
         devs, nobs = run_scenario(W, steps)
         ctx.count('reads_compared', nobs)
         ctx.count('responses_compared', len(steps))
